@@ -154,7 +154,12 @@ fn main() {
                 let Some((h, asm_h)) = h else { continue };
                 fs += 1;
                 let args: Vec<i64> = (0..fa + 1).map(|_| r.range(0, 3)).collect();
-                let want = run_main(&asm_h, &sentinels, &args);
+                let want0 = run_main(&asm_h, &sentinels, &args);
+                // the handler alone in the same fill context as the try of context 1 (a handler may be
+                // fill-sensitive, e.g. a reduce that takes the fill value as its initial accumulator)
+                let want_fill = sig_of(&format!("⬚7({h})"), &prelude)
+                    .filter(|(a, o, _)| *a == fa && *o == fo)
+                    .map(|(_, _, asm_f)| run_main(&asm_f, &sentinels, &args));
                 for j in 0..=k {
                     let fj = render(&its, Some(j));
                     for ctx in 0..6 {
@@ -171,9 +176,15 @@ fn main() {
                         if ta != fa || to != fo {
                             continue;
                         }
+                        let want = if ctx == 1 {
+                            let Some(w) = &want_fill else { continue };
+                            w
+                        } else {
+                            &want0
+                        };
                         cases += 1;
                         let got = run_main(&asm_t, &sentinels, &args);
-                        let same = match (&got, &want) {
+                        let same = match (&got, want) {
                             (Ok((a, da)), Ok((b, db))) => {
                                 handler_ran += 1;
                                 a == b && da == db
